@@ -31,6 +31,10 @@ module Nat :
   val leb : nat -> nat -> bool
 
   val ltb : nat -> nat -> bool
+
+  val divmod : nat -> nat -> nat -> nat -> nat * nat
+
+  val div : nat -> nat -> nat
  end
 
 val nth : nat -> 'a1 list -> 'a1 -> 'a1
@@ -38,6 +42,8 @@ val nth : nat -> 'a1 list -> 'a1 -> 'a1
 val nth_error : 'a1 list -> nat -> 'a1 option
 
 val map : ('a1 -> 'a2) -> 'a1 list -> 'a2 list
+
+val flat_map : ('a1 -> 'a2 list) -> 'a1 list -> 'a2 list
 
 val fold_left : ('a1 -> 'a2 -> 'a1) -> 'a2 list -> 'a1 -> 'a1
 
@@ -65,6 +71,14 @@ type z =
 
 module Pos :
  sig
+  type mask =
+  | IsNul
+  | IsPos of positive
+  | IsNeg
+ end
+
+module Coq_Pos :
+ sig
   val succ : positive -> positive
 
   val add : positive -> positive -> positive
@@ -73,11 +87,36 @@ module Pos :
 
   val pred_double : positive -> positive
 
+  type mask = Pos.mask =
+  | IsNul
+  | IsPos of positive
+  | IsNeg
+
+  val succ_double_mask : mask -> mask
+
+  val double_mask : mask -> mask
+
+  val double_pred_mask : positive -> mask
+
+  val sub_mask : positive -> positive -> mask
+
+  val sub_mask_carry : positive -> positive -> mask
+
+  val sub : positive -> positive -> positive
+
   val mul : positive -> positive -> positive
+
+  val size_nat : positive -> nat
 
   val compare_cont : comparison -> positive -> positive -> comparison
 
   val compare : positive -> positive -> comparison
+
+  val eqb : positive -> positive -> bool
+
+  val ggcdn : nat -> positive -> positive -> positive * (positive * positive)
+
+  val ggcd : positive -> positive -> positive * (positive * positive)
 
   val iter_op : ('a1 -> 'a1 -> 'a1) -> positive -> 'a1 -> 'a1
 
@@ -100,16 +139,40 @@ module Z :
 
   val opp : z -> z
 
+  val sub : z -> z -> z
+
   val mul : z -> z -> z
 
   val compare : z -> z -> comparison
 
+  val sgn : z -> z
+
+  val leb : z -> z -> bool
+
   val ltb : z -> z -> bool
+
+  val eqb : z -> z -> bool
+
+  val abs : z -> z
 
   val to_nat : z -> nat
 
   val of_nat : nat -> z
+
+  val to_pos : z -> positive
+
+  val pos_div_eucl : positive -> z -> z * z
+
+  val div_eucl : z -> z -> z * z
+
+  val modulo : z -> z -> z
+
+  val ggcd : z -> z -> z * (z * z)
  end
+
+type q = { qnum : z; qden : positive }
+
+val qred : q -> q
 
 type sx =
 | SZ of z
@@ -127,6 +190,8 @@ val opt_all : 'a1 option list -> 'a1 list option
 
 val dlist : (sx -> 'a1 option) -> sx -> 'a1 list option
 
+val dq : sx -> q option
+
 val ez : z -> sx
 
 val enat : nat -> sx
@@ -134,6 +199,8 @@ val enat : nat -> sx
 val ebool : bool -> sx
 
 val elist : ('a1 -> sx) -> 'a1 list -> sx
+
+val eq_ : q -> sx
 
 val eopt : ('a1 -> sx) -> 'a1 option -> sx
 
@@ -217,6 +284,75 @@ type 'r iter_out =
 | Modified
 
 val iter_next : 'a1 store -> iter -> iter * 'a1 iter_out
+
+type selection =
+| Mu
+| Filter
+
+type restart_rule =
+| Basic
+| NoImprovement
+| EveryN of z
+
+type emitter_kind =
+| ESE
+| GAE
+
+type cfg = { c_kind : emitter_kind; c_sel : selection; c_rule : restart_rule;
+             c_batch : nat }
+
+val count_new : z list -> nat
+
+val num_parents : cfg -> nat -> nat
+
+val check_restart : restart_rule -> nat -> nat -> bool
+
+type ('p, 'v) action =
+| ARank of 'p list * z list
+| AOptTell of nat list * 'v list * nat
+| ACheckStop of 'v list
+| ASample of nat
+| AGradReset of 'p
+| AOptReset of 'p option
+| ARankerReset
+
+type ('p, 'v) env = { e_ask : 'p list; e_status : z list;
+                      e_rank : ('p list -> z list -> nat list * 'v list);
+                      e_stop : ('v list -> bool); e_archive : 'p list;
+                      e_pick : nat }
+
+type 'p state = { itrs : nat; restarts : nat; center : 'p option;
+                  ranker_epoch : nat }
+
+val init_state : 'a1 state
+
+val construct : cfg -> 'a1 -> ('a1, 'a2) action list result
+
+val ask : ('a1, 'a2) env -> 'a1 list
+
+val take_rows : 'a1 list -> nat list -> 'a1 list
+
+val sample_elite : ('a1, 'a2) env -> 'a1 option
+
+val restart_actions : cfg -> 'a1 -> ('a1, 'a2) action list
+
+val tell :
+  cfg -> ('a1, 'a2) env -> 'a1 state -> 'a1 list -> z list -> (('a1, 'a2)
+  action list * 'a1 state) * unit result
+
+val c10_err_code : err -> z
+
+val dcfg : sx -> cfg option
+
+val evals : q list list -> sx
+
+val eaction : (z, q list) action -> sx
+
+val run_op10 : cfg -> z state -> sx -> z state * sx
+
+val run_ops10 : cfg -> z state -> sx list -> sx list
+
+val run_C10 : sx -> sx
 
 val err_code : err -> z
 
